@@ -379,11 +379,15 @@ def impl_run(cases, timeout=10, jobs=None):
 def compare_history(model, impl, project=None):
     """Returns None when model and implementation agree, else a short description.
     project: optional function (call_result) -> projected value."""
+    # the model's own watchdog fired (a fuel exhaustion that takes longer than the budget to reach): nothing to compare
+    model_slow = any(c['status'] == 'driver_error' and 'timeout' in c.get('msg', '') for c in model['calls'])
     if impl.get('timeout'):
         mc = model['calls']
-        if mc and mc[-1]['status'] == 'fuel':
+        if (mc and mc[-1]['status'] == 'fuel') or model_slow:
             return None
         return 'impl timeout, model %s' % (mc[-1]['status'] if mc else 'empty')
+    if model_slow:
+        return 'SKIP'
     if 'crash' in impl or 'error' in impl:
         return 'impl worker failure: %r' % (impl,)
     mc, ic = model['calls'], impl['calls']
